@@ -6,6 +6,7 @@ package main
 import (
 	"fmt"
 	"go/types"
+	"strings"
 
 	"golang.org/x/tools/go/ssa"
 )
@@ -30,11 +31,27 @@ func (vc *FnVC) reacquired(lock *ssa.Call, key string) bool {
 				continue
 			}
 			n, recv := lockCallInfo(c.Common())
-			if n != "Unlock" && n != "RUnlock" {
-				continue
+			released := false
+			if n == "Unlock" || n == "RUnlock" {
+				r, p, ok := mutexOf(recv)
+				released = ok && lockKey(baseRoot(r), p) == key
+			} else if callee, ok := c.Common().Value.(*ssa.Function); ok {
+				// a callee that declares `locks p.mu` acquired and released that mutex internally
+				if ct := vc.w.contractFor(callee); ct != nil {
+					for _, lk := range ct.Locks {
+						parts := strings.SplitN(lk, ".", 2)
+						for i, prm := range callee.Params {
+							if len(parts) == 2 && prm.Name() == parts[0] && i < len(c.Common().Args) {
+								ar, ap := accessPath(c.Common().Args[i])
+								if lockKey(baseRoot(ar), joinPath(ap, parts[1])) == key {
+									released = true
+								}
+							}
+						}
+					}
+				}
 			}
-			r, p, ok := mutexOf(recv)
-			if !ok || lockKey(baseRoot(r), p) != key {
+			if !released {
 				continue
 			}
 			if b == lb {
